@@ -169,6 +169,9 @@ type Font struct {
 	Glyphs         []*Glyph
 	CreationDate   string // text after "%%CreationDate: " ("" = no comment)
 	ExtraSubrs     int
+	// JunkChars are names of CharStrings entries whose value is not a
+	// charstring (`/name 17 def`): not glyphs, whatever the encoding says.
+	JunkChars []string
 }
 
 // GlyphByName finds a glyph.
